@@ -87,6 +87,10 @@ func OpenGoGitRepo(path, namespace string, clockLoaders []ClockLoader) (*GoGitRe
 		for _, name := range loader.Clocks {
 			if _, err := repo.getClock(name); err != nil {
 				allExist = false
+				if err != ErrClockNotExist {
+					// the clock is broken: drop it so that it gets rebuilt
+					_ = repo.localStorage.Remove(filepath.Join(clockPath, name))
+				}
 			}
 		}
 
